@@ -16,7 +16,7 @@ particular every state reachable from the empty chain by ANY sequence of operati
 markers / permissions / grants / contracts configuration — and every operation with any signer
 list.  Helper lemmas live in `PvProofs/Lemmas/Vowner*.lean`.
 -/
-import PvProofs.Lemmas.VownerMsgs
+import PvProofs.Lemmas.VownerEffects
 
 namespace PvProofs.C09
 open PvModel PvModel.Ledger PvModel.Vowner PvProofs.VownerL
@@ -181,6 +181,68 @@ theorem write_without_value_owner_keeps_tokens {s s' : State} (hinv : Inv s) (id
     s'.ledger = s.ledger :=
   (write_step hinv h).2.2 rfl
 
+/-! ## What each successful message does to the tokens, exactly -/
+
+/-- WriteScope: the scope exists afterwards; with a value-owner field that address holds the
+token; no other scope's token moves. -/
+theorem write_sets_owner {s s' : State} (hinv : Inv s) (id : ScopeId) (owners : List Addr) (vo : Addr)
+    (signers : List Addr) (h : exec s (.write id owners vo signers) = .ok s') :
+    hasScope s' id = true ∧ (vo ≠ "" → HolderIs s'.ledger id (some vo)) ∧
+    (∀ d, d ≠ id → ∀ o, HolderIs s.ledger d o → HolderIs s'.ledger d o) :=
+  write_effect hinv h
+
+/-- UpdateValueOwners: exactly the named scopes' tokens end with the new value owner (each of
+them had one), every other token stays. -/
+theorem updvo_moves_exactly_named {s s' : State} (ids : List ScopeId) (vo : Addr)
+    (signers : List Addr) (h : exec s (.updvo ids vo signers) = .ok s') :
+    ∀ d o, HolderIs s.ledger d o → HolderIs s'.ledger d (if d ∈ ids then some vo else o) := by
+  simp only [exec] at h
+  unfold updateValueOwners at h
+  split at h
+  · simp at h
+  · cases hl : getScopeValueOwners s.ledger ids with
+    | error e => rw [hl] at h; simp at h
+    | ok links =>
+      rw [hl] at h; simp only at h
+      cases hv : validateUpdateValueOwners s links vo signers .updvo with
+      | error e => rw [hv] at h; simp at h
+      | ok r =>
+        obtain ⟨a, agents⟩ := r
+        rw [hv] at h; simp only at h
+        have := moveValueOwners_exact hv h
+        rw [(getScopeValueOwners_spec hl).1] at this
+        exact this
+
+/-- MigrateValueOwner: exactly the tokens `ex` held end with `pr`; every other token stays. -/
+theorem migrate_moves_exactly_held {s s' : State} (ex pr : Addr)
+    (signers : List Addr) (h : exec s (.migrate ex pr signers) = .ok s') :
+    ∀ d o, HolderIs s.ledger d o → HolderIs s'.ledger d (if o = some ex then some pr else o) := by
+  simp only [exec] at h
+  unfold migrateValueOwner at h
+  split at h
+  · simp at h
+  · simp only at h
+    split at h
+    · simp at h
+    · cases hv : validateUpdateValueOwners s (scopesForValueOwner s.ledger ex) pr signers .migrate with
+      | error e => rw [hv] at h; simp at h
+      | ok r =>
+        obtain ⟨a, agents⟩ := r
+        rw [hv] at h; simp only at h
+        intro d o ho
+        have := moveValueOwners_exact hv h d o ho
+        by_cases hc : o = some ex
+        · simpa [(mem_scopesForValueOwner ho).mpr hc, hc] using this
+        · have hn : ¬ d ∈ (scopesForValueOwner s.ledger ex).map (·.2) := fun x => hc ((mem_scopesForValueOwner ho).mp x)
+          simpa [hn, hc] using this
+
+/-- bank MsgSend: the sender held every token it names; exactly those end with the receiver. -/
+theorem send_moves_exactly_named {s s' : State} (hinv : Inv s) (frm to : Addr) (ids : List ScopeId)
+    (h : exec s (.send frm to ids) = .ok s') :
+    (∀ d ∈ ids, HolderIs s.ledger d (some frm)) ∧
+    ∀ d o, HolderIs s.ledger d o → HolderIs s'.ledger d (if d ∈ ids then some to else o) :=
+  send_effect hinv h
+
 /-! ## Clause 2 — the owner changes only with the current owner's consent -/
 
 /-- **owner_change_authorised**: in every successful step (any message kind, any signer list)
@@ -274,7 +336,7 @@ theorem observeScope_of_inv {s : State} (hinv : Inv s) (id : ScopeId) :
   · unfold holderOf observeScope
     simp only [holdersOf_of_holderIs ho]
     cases o <;> rfl
-  · unfold tokenClause supplyOk holdersOk voOk scopeOk holderOf observeScope
+  · unfold tokenClause supplyOk holdersOk voOk scopeOk queriesOk holderOf observeScope
     simp only [holdersOf_of_holderIs ho, denomOwner_of_holderIs ho, ho.1]
     cases o with
     | none => simp [holderList]
